@@ -634,7 +634,7 @@ func (c *ctx) mutTLC() ([]seed, []mutScript) {
 	cfgText := fmt.Sprintf("SPECIFICATION Spec\nCONSTANTS\n  SeedLens = {%s}\n  MaxDepth = 6\n  MaxTokens = 400\n  NTok = 40\n  NNest = %d\n  NestDepths = {%s}\n  NCorrupt = %d\n  Sample = TRUE\nINVARIANTS TypeOK WellFormed Export\nPROPERTIES ScriptGrows\nCHECK_DEADLOCK FALSE\n",
 		strings.Join(ls, ", "), 16, []string{"1, 4, 32", "1, 8, 64, 256"}[r.Pick(0, 1)], len(corruptions))
 	nJVM := r.Pick(1, 4)
-	walks := r.Pick(100, 1500)
+	walks := r.Pick(100, 350)
 	var smu sync.Mutex
 	seen := map[string]bool{}
 	type keyed struct {
